@@ -762,10 +762,10 @@ fn execute_correlated_scalar_subquery(
         // Cache miss - execute the subquery
         let substituted_plan = substitute_correlated_columns(plan, batch, row)?;
 
-        let scalar = match executor.execute_scalar(&substituted_plan) {
-            Ok(scalar) => scalar,
-            Err(_e) => crate::planner::ScalarValue::Null,
-        };
+        // A failure for ONE outer row (e.g. more than one row returned) fails
+        // the statement, exactly as it does for an uncorrelated subquery;
+        // turning it into NULL silently returned a wrong answer.
+        let scalar = executor.execute_scalar(&substituted_plan)?;
 
         // Cache the result
         executor.set_correlated_cache(
@@ -808,9 +808,9 @@ fn execute_correlated_exists_subquery(
         // Cache miss - execute the subquery
         let substituted_plan = substitute_correlated_columns(subquery, batch, row)?;
 
-        let exists = executor
-            .execute_exists(&substituted_plan)
-            .unwrap_or_default();
+        // Errors propagate: "the subquery failed" is not "no row exists"
+        // (which NOT EXISTS would even turn into TRUE).
+        let exists = executor.execute_exists(&substituted_plan)?;
 
         // Cache the result (before applying negation)
         executor.set_correlated_cache(
